@@ -8,6 +8,8 @@ symbolic text (all 256 values per byte), the split index is a symbolic int turne
 position, the mode switch (raw mode / pause at the k-th line) is a symbolic menu value.
 Oracle = a reference framer written in this file from the framing definitions (not from the code).
 """
+import operator as _operator
+
 from vlib import api, lbytes, lift
 from vlib.api import H, cover
 from vlib.lift import b, t
@@ -21,10 +23,10 @@ ENCODED = ["twisted.protocols.basic:LineReceiver.dataReceived", "twisted.protoco
            "twisted.protocols.basic:NetstringReceiver", "twisted.protocols.basic:_formatNetstring",
            "twisted.protocols.basic:IntNStringReceiver.dataReceived",
            "twisted.protocols.basic:IntNStringReceiver.sendString"]
-BOUNDS = {"quick": {"n": 4, "ns": 2, "ni": 3}, "thorough": {"n": 6, "ns": 5, "ni": 4}}
+BOUNDS = {"quick": {"n": 4, "ns": 3, "ni": 3}, "thorough": {"n": 7, "ns": 5, "ni": 4}}
 B = {}
 M = 2   # MAX_LENGTH used throughout
-BOUNDS_TEXT = ("MAX_LENGTH=2.  Line receivers: every byte stream of <= n bytes (n=4 quick, 6 thorough), "
+BOUNDS_TEXT = ("MAX_LENGTH=2.  Line receivers: every byte stream of <= n bytes (n=4 quick, 7 thorough), "
                "delimiter CRLF or LF, every split index, raw-mode switch / pause at line 1 or 2.  Netstring: "
                "1-2 symbolic length bytes + symbolic separator + <= ns symbolic bytes.  IntN (N=8,16,32): "
                "symbolic prefix bytes + <= ni symbolic bytes.  Two deliveries at every split index.")
@@ -60,6 +62,19 @@ L = lift.lift("twisted.protocols.basic", names=_NAMES, use_re=True, encode_calls
               call_shims=dict(lift._CALL_SHIMS, str="_vl_str"), extra_shims={"_vl_str": _l_str},
               overrides={"pack": lbytes.l_struct.pack, "unpack": lbytes.l_struct.unpack,
                          "calcsize": lbytes.l_struct.calcsize})
+
+
+def _fix(s):
+    """the same text rebuilt from its characters, so that its length is a plain int: a harness argument
+    has a symbolic length expression (even when a precondition pins it) and every index or slice of a
+    string containing it then costs solver queries"""
+    n = len(s)
+    if not lbytes._is_conc(n):
+        n = _operator.index(n)
+    out = ""
+    for i in range(n):
+        out = out + s[i]
+    return out
 
 
 def _split_cases(n, split):
@@ -332,6 +347,7 @@ def linerecv(s: str, split: int, dl: int, act: int) -> bool:
     pre: 0 <= split <= len(s) and 0 <= dl <= 1 and 0 <= act <= 6
     post: _
     """
+    s = _fix(s)
     k = _split_cases(len(s), split)
     d = _D[_menu(1, dl)]
     a = _menu(6, act)
@@ -344,6 +360,7 @@ def lineonly(s: str, split: int, dl: int) -> bool:
     pre: 0 <= split <= len(s) and 0 <= dl <= 1
     post: _
     """
+    s = _fix(s)
     k = _split_cases(len(s), split)
     d = _D[_menu(1, dl)]
     return _check_lines(s, k, d, 0, True)
@@ -355,6 +372,7 @@ def sendline(line: str, dl: int, which: int) -> bool:
     pre: 0 <= dl <= 1 and 0 <= which <= 1
     post: _
     """
+    line = _fix(line)
     d = _D[_menu(1, dl)]
     ev = []
     p = RecLineOnly() if which == 1 else RecLine(0)
@@ -472,6 +490,9 @@ def netstring(ld: str, sep: str, rest: str, split: int) -> bool:
     pre: 0 <= split <= len(ld) + 1 + len(rest)
     post: _
     """
+    ld = _fix(ld)
+    sep = _fix(sep)
+    rest = _fix(rest)
     s = _conc_digits(ld) + sep + rest
     k = _split_cases(len(s), split)
     return _check_net(s, k)
@@ -484,6 +505,9 @@ def netshape(v: int, pay: str, c: str, e: str, split: int) -> bool:
     pre: 0 <= split <= v + 3 + len(e)
     post: _
     """
+    pay = _fix(pay)
+    c = _fix(c)
+    e = _fix(e)
     n = _menu(M + 1, v)
     s = str(n) + ":" + pay + c + e
     k = _split_cases(len(s), split)
@@ -503,6 +527,8 @@ def nettwo(v1: int, v2: int, p1: str, p2: str, split: int) -> bool:
     pre: 0 <= split <= v1 + v2 + 6
     post: _
     """
+    p1 = _fix(p1)
+    p2 = _fix(p2)
     n1 = _menu(M, v1)
     n2 = _menu(M, v2)
     s = str(n1) + ":" + p1 + "," + str(n2) + ":" + p2 + ","
@@ -519,6 +545,8 @@ def netsend(data: str, extra: str, split: int) -> bool:
     pre: 0 <= split <= len(data) + 3 + len(extra)
     post: _
     """
+    data = _fix(data)
+    extra = _fix(extra)
     ev0 = []
     p = RecNet()
     p.makeConnection(FakeTransport(ev0))
@@ -629,6 +657,7 @@ def intn(s: str, split: int, pl: int, act: int) -> bool:
     pre: 0 <= split <= len(s) and 0 <= act <= 2
     post: _
     """
+    s = _fix(s)
     pl = 1 if pl == 1 else (2 if pl == 2 else 4)
     a = _menu(2, act)
     s = _conc_prefixes(s, pl)
@@ -652,6 +681,8 @@ def intnsend(data: str, extra: str, split: int, pl: int) -> bool:
     pre: 0 <= split <= len(data) + pl + len(extra)
     post: _
     """
+    data = _fix(data)
+    extra = _fix(extra)
     pl = 1 if pl == 1 else (2 if pl == 2 else 4)
     p = _INTN[pl](0)
     p.makeConnection(FakeTransport([]))
@@ -696,9 +727,12 @@ def _net_shards(tier):
         for r in range(0, BOUNDS[tier]["ns"] - a + 1):
             if a + r <= 1:
                 out.append(("len(ld) == %d" % a, "len(rest) == %d" % r))
-            else:
+            elif a + r == 2:
                 out.append(("len(ld) == %d" % a, "len(rest) == %d" % r, "split <= 1"))
                 out.append(("len(ld) == %d" % a, "len(rest) == %d" % r, "split >= 2"))
+            else:
+                for k in range(0, a + r + 2):
+                    out.append(("len(ld) == %d" % a, "len(rest) == %d" % r, "split == %d" % k))
     return out
 
 
